@@ -239,11 +239,11 @@ impl Gen {
             return Op::Poison { name, key: self.key(), val: self.val(), del };
         }
         match self.wl.below(100) {
-            0..=39 => Op::Put { name, key: self.key(), val: self.val() },
-            40..=54 => Op::Del { name, key: self.key() },
-            55..=69 => Op::Digest { name, prefix: self.wl.pick(&self.prefixes).clone(), out: self.key() },
-            70..=82 => Op::CopyIf { name, from: self.key(), to: self.key() },
-            83..=94 => Op::Guard { name, need: self.key(), key: self.key(), val: self.val() },
+            0..=36 => Op::Put { name, key: self.key(), val: self.val() },
+            37..=50 => Op::Del { name, key: self.key() },
+            51..=64 => Op::Digest { name, prefix: self.wl.pick(&self.prefixes).clone(), out: self.key() },
+            65..=76 => Op::CopyIf { name, from: self.key(), to: self.key() },
+            77..=87 => Op::Guard { name, need: self.key(), key: self.key(), val: self.val() },
             _ => Op::NoOp,
         }
     }
